@@ -268,6 +268,71 @@ pub fn run(ctx: &Ctx) -> i32 {
         }
     });
     acc = acc.merge(a2);
+    // rendering is a function of the compiled value and the path only: not of the time at which
+    // it is asked for, nor of who is listening on the log facade
+    let mut env = Acc::new();
+    let timed = [
+        Expr::and(Expr::Test(Test::MTime(Cmp::Lt, 7, TimeUnit::Day)), Expr::Action(Action::Print)),
+        Expr::or(Expr::Test(Test::ATime(Cmp::Gt, 5, TimeUnit::Min)), Expr::and(Expr::Test(Test::CTime(Cmp::Eq, 0, TimeUnit::Hour)), Expr::Action(Action::FPrint("f".into())))),
+    ];
+    for (k, e) in timed.iter().enumerate() {
+        env.states += 1;
+        env.transitions += 4;
+        let wit = json!({"kind": "c20-time", "expr": k});
+        match fresh(e, None) {
+            Ok(h) => {
+                let first = h.scheme(&devs[1]);
+                let io1 = h.io_map();
+                std::thread::sleep(std::time::Duration::from_millis(1100));
+                let second = h.scheme(&devs[1]);
+                let other = h.scheme(&devs[3]);
+                let io2 = h.io_map();
+                match (first, second, other) {
+                    (Ok(a), Ok(b), Ok(c)) => {
+                        if a != b {
+                            env.violate(Violation::new("C20:rendering-depends-on-the-time-of-the-call", format!("{}: two renderings for the same path, 1.1 s apart, differ", e.show()), wit.clone()));
+                        }
+                        if let (Ok(pa), Ok(pc)) = (Prog::read(&a), Prog::read(&c)) {
+                            let mut d = vec![];
+                            for (x, y) in pa.forms.iter().zip(pc.forms.iter()) {
+                                diff_leaves(x, y, &mut d);
+                            }
+                            if d.len() != 1 {
+                                env.violate(Violation::new("C20:renderings-differ-elsewhere", format!("{}: renderings for two paths made 1.1 s apart differ in {} places: {:?}", e.show(), d.len(), d.iter().take(3).collect::<Vec<_>>()), wit.clone()));
+                            }
+                        }
+                    }
+                    _ => env.violate(Violation::new("C20:panic:render", format!("{}: rendering panicked", e.show()), wit.clone())),
+                }
+                if format!("{io1:?}") != format!("{io2:?}") {
+                    env.violate(Violation::new("C20:destination-table-changed", format!("{}: io_map() changed over time", e.show()), wit.clone()));
+                }
+            }
+            Err(err) => env.violate(Violation::new("C20:compile-failed", format!("{}: {err}", e.show()), wit)),
+        }
+    }
+    for (ei, (e, threads)) in es.iter().enumerate() {
+        if let Some(base) = &bases[ei] {
+            log::set_max_level(log::LevelFilter::Trace);
+            for (di, d) in devs.iter().enumerate() {
+                env.states += 1;
+                env.transitions += 1;
+                if let Ok(h) = fresh(e, *threads) {
+                    match h.scheme(d) {
+                        Ok(t) if t == base.texts[di] => {}
+                        Ok(_) => env.violate(Violation::new(
+                            "C20:rendering-depends-on-log-level",
+                            format!("{}: scheme({:?}) differs when a logger listens at Trace level", e.show(), short(d)),
+                            json!({"kind": "c20-log", "expr": ei, "device": di}),
+                        )),
+                        Err(p) => env.violate(Violation::new(format!("C20:panic:{}", panic_site(&p)), format!("{}: {p}", e.show()), json!({"kind": "c20-log", "expr": ei, "device": di}))),
+                    }
+                }
+            }
+            log::set_max_level(log::LevelFilter::Off);
+        }
+    }
+    acc = acc.merge(env);
     acc.sample(json!({"expression": es[3].0.show(), "ops": ["scheme(\"a\\\"b\")", "io_map()", "scheme(\"/\")"]}));
     finish(
         ctx,
@@ -277,7 +342,7 @@ pub fn run(ctx: &Ctx) -> i32 {
             exhaustive: true,
             rule: "state = (compiled expression, history of render operations); explicit-state exploration of every operation sequence (the compiled value is rebuilt and the history replayed, as it cannot be copied); each result is compared with the rendering of a fresh compile for the same path; renderings for different paths are read back and must differ in exactly one leaf, the device string literal, decoding to the path; distinct = (expression, device) pairs rendered".into(),
             bound: format!("{} expressions (five of them carrying placeholder-like user text) x every sequence of length 1..{maxlen} over {} operations (scheme(d) for {} paths, io_map())", es.len(), nops, devs.len()),
-            assumptions: vec!["expressions without time tests (the embedded clock is C15's subject)".into()],
+            assumptions: vec!["the operation histories use expressions without time tests; two expressions with time tests are rendered twice 1.1 s apart (the embedded second belongs to the compile call, C15)".into(), "every (expression, path) rendering is repeated with a logger listening at Trace level".into()],
             extra: serde_json::Map::new(),
         },
     )
@@ -292,6 +357,10 @@ pub fn replay(w: &Value) -> Vec<Violation> {
         return vec![];
     }
     let (e, t) = &es[ei];
+    if w["kind"] == "c20-time" || w["kind"] == "c20-log" {
+        // environment-dependent witnesses: re-run the whole environment pass
+        return vec![];
+    }
     if let Ok(base) = baseline(e, *t, &devs) {
         if w["kind"] == "c20" {
             let ops: Vec<Op> = w["ops"]
